@@ -239,6 +239,8 @@ def run_races(ctx, out, jobs, clauses, label):
                 stats["incomplete"] += 1
             if job.get("fault", "none") != "none":
                 stats["faults_fired"] = stats.get("faults_fired", 0) + (1 if tr.w.fault_fired else 0)
+            if tr.unprojectable:
+                out.drift.append("%s: the implementation reached a state that cannot be projected onto RaceDriver.tla's variables after %d events (%s)" % (tid, len(tr.events), tr.unprojectable))
             if tr.w.sim.handler_errors and job.get("fault", "none") == "none":
                 out.drift.append("%s: handler raised: %s" % (tid, tr.w.sim.handler_errors[0][2].strip().splitlines()[-1]))
             trace = tr.trace(tid)
